@@ -40,8 +40,8 @@ def cases(tier, seed):
     out = []
     for kind in ("isv", "jfa"):
         for u in range(len(UBMS)):
-            for sub in range(4):
-                for fac in range(3):
+            for sub in (range(4) if tier == "quick" else range(12)):
+                for fac in (range(3) if tier == "quick" else range(6)):
                     for pr in range(4):
                         out.append(dict(kind=kind, ubm=u, sub=sub, fac=fac, probe=pr, seed=seed))
     return out
@@ -66,7 +66,7 @@ def _machine(case, ubm, s):
 
     C, D = ubm.means.shape
     sub = case["sub"]
-    rU = 1 + sub % 2
+    rU = 1 + sub % 2 + (1 if sub >= 8 else 0)
     rV = 1 + (sub // 2) % 2
     if case["kind"] == "isv":
         m = ISVMachine(r_U=rU, ubm=ubm, em_iterations=1, enroll_iterations=2)
@@ -74,7 +74,7 @@ def _machine(case, ubm, s):
         m = JFAMachine(r_U=rU, r_V=rV, ubm=ubm, em_iterations=1, enroll_iterations=2)
         m.V = _pattern((C * D, rV), sub + 1, s)
     m.U = _pattern((C * D, rU), sub, s)
-    m.D = (np.abs(_pattern((C * D,), sub + 2, s)) + 0.5 * s) if sub != 3 else np.full(C * D, 1e-10 * s)
+    m.D = (np.abs(_pattern((C * D,), sub + 2, s)) + 0.5 * s) if sub % 4 != 3 else np.full(C * D, 1e-10 * s)
     return m
 
 
